@@ -265,7 +265,8 @@ Qed.
 
 
 (* ---- percentile --------------------------------------------------------------------------------- *)
-Definition midpoint (a b : T) : T := div Op (add Op a b) (ofZ Op 2).
+(* the midpoint as the (repaired) source computes it: [mid] of C20_Defs *)
+Definition midpoint (a b : T) : T := mid Op a b.
 
 Lemma pick_spec s l r :
   pick Op s l r = if l =? r then nthZ Op s l else midpoint (nthZ Op s l) (nthZ Op s r).
